@@ -211,6 +211,12 @@ def task(args):
             for c in range(count):
                 fmt = ["json", "yaml", "toml"][c % 3]
                 data = docgen.rand_data(r, depth=r.choice([1, 2, 3, 4]), fmt=fmt)
+                if r.random() < 0.03 and isinstance(data, dict) and "pad" not in data:
+                    # a document larger than any internal buffer: a long string and a long list next to the data
+                    n = r.choice([1023, 1024, 1025, 4096, 8191, 8192, 8193, 20000, 70000])
+                    data = dict(data)
+                    data["pad"] = "".join(r.choice("abcxyz \u00e9") for _ in range(n))
+                    data["nums"] = list(range(r.choice([100, 1000, 3000])))
                 if fmt == "json":
                     text = docgen.write_json(r, data)
                 elif fmt == "toml":
@@ -236,8 +242,13 @@ def task(args):
                     data = hostile.rand_unicode(r, r.randint(1, 60)).replace("\x00", "").encode("utf-8")
                 elif x < 0.65:
                     data = ("line1\r\nline2\n\ttab \"q\" \\ back\n" * r.randint(1, 3)).encode("utf-8")
-                else:
+                elif x < 0.88:
                     data = bytes(r.getrandbits(8) for _ in range(r.randint(1, 80)))
+                else:
+                    # sizes around the block sizes an encoder or reader might use internally
+                    n = r.choice([255, 256, 257, 1022, 1023, 1024, 1025, 1026, 2048, 2049, 3000, 4095, 4096, 4097, 8191, 8192, 8193, 10000, 65536, 65537])
+                    data = (bytes(r.getrandbits(8) for _ in range(n)) if r.random() < 0.5
+                            else ("".join(r.choice("abc \n\u00e9\u4e2d") for _ in range(n))).encode("utf-8"))
                 try:
                     as_text = data.decode("utf-8")
                 except UnicodeDecodeError:
